@@ -156,6 +156,7 @@ func (n *Node) processSyncRequest(rpc net.RPC, cmd *net.SyncRequest) {
 	}
 
 	//Get Self Known
+	simYield(n, "syncreq.between")
 	n.coreLock.Lock()
 	knownEvents := n.core.knownEvents()
 	n.coreLock.Unlock()
